@@ -72,7 +72,8 @@ def main_for(pid, tier, replay=None):
     sampled = False
     for plan in PLANS[tier][pid]:
         (label, mode, maxedits, nrandom, maxperturb, cap), style = plan[:6], (plan[6] if len(plan) > 6 else "plain")
-        for tn, td in (plan[7] if len(plan) > 7 else R.TEXELS[tier]):
+        # (quick tier: the exhaustive state graphs are exported for 2/1, 3/2, 5/1; the simulated classes and the null maps also for 5/3)
+        for tn, td in (plan[7] if len(plan) > 7 else R.TEXELS[tier] if tier == "thorough" or label.endswith("-sim") or mode == "null" else [x for x in R.TEXELS[tier] if x != (5, 3)]):
             keep = (lambda o: o["valid"] == 0) if mode in ("perturb", "tagperturb") else None
             # "-sim" classes: random edit scripts of up to maxedits gestures (TLC simulation mode, seeded) instead of the exhaustive state graph
             sim = (f"num={max(50, cap // 80)}" if label == "valid-sim" else f"num={max(50, cap // 20)}") if label.endswith("-sim") else None
@@ -94,11 +95,18 @@ def main_for(pid, tier, replay=None):
         base = [x for x in scen if x.get("route") != "cli" and x["valid"] == 1 and x["cls"] == "valid"]
         for x in rng.sample(base, min(len(base), 400 if tier == "quick" else 4000)):
             scen.append(dict(x, giant=1))
+    # a few perturbed (and valid) maps through the command line in a fresh interpreter with PYTHONOPTIMIZE=1
+    if pid == "C01":
+        base = [x for x in scen if x.get("route") == "cli" and not x.get("giant")]
+        pert = [x for x in base if x["valid"] == 0]
+        for x in rng.sample(pert, min(len(pert), 48 if tier == "quick" else 400)) + rng.sample(base, min(len(base), 16 if tier == "quick" else 100)):
+            scen.append(dict(x, optimize=1))
     for i, s in enumerate(scen, 1):
         s["tid"] = i
     traces = C.pmap("harness.remap_engine", "run_scenario", [x for x in scen if x.get("route") != "cli"], chunk=300)
     # the same kind of scenario through the pretext-to-asm command line (files written, info yaml, log line)
-    traces += C.pmap("harness.remap_engine", "run_scenario_cli", [x for x in scen if x.get("route") == "cli"], chunk=100)
+    traces += C.pmap("harness.remap_engine", "run_scenario_cli", [x for x in scen if x.get("route") == "cli" and not x.get("optimize")], chunk=100)
+    traces += C.pmap("harness.remap_engine", "run_scenario_cli", [x for x in scen if x.get("route") == "cli" and x.get("optimize")], chunk=4)
     traces.sort(key=lambda t: t["tid"])
     # the real specimens (row-level clauses only: conservation, adjacency, statistics); the two largest are left to the thorough tier
     if pid in ("C01", "C07", "C11"):
